@@ -193,6 +193,20 @@ func zenoIdle(ev *Event) bool {
 			}
 		}
 		return false
+	case "hqsrv.request":
+		if len(ev.raw) >= 3 {
+			kind, _ := ev.raw[0].(string)
+			fresh, _ := ev.raw[2].(int)
+			return kind == "get" && fresh == 0
+		}
+		return false
+	case "hqsrv.done":
+		if len(ev.raw) >= 3 {
+			kind, _ := ev.raw[0].(string)
+			st, _ := ev.raw[2].(int)
+			return kind == "get" && st == 204
+		}
+		return false
 	case "disk.verdict":
 		if len(ev.raw) >= 2 {
 			paused, _ := ev.raw[1].(bool)
